@@ -17,8 +17,9 @@ from reuse.global_licensing import AnnotationsItem, NestedReuseTOML, PrecedenceT
 nativize_pathlib()
 
 ROOT = Path("/proj")
-FILE = ROOT / "a" / "b" / "f.py"
-DIRS = ["", "a/", "a/b/"]
+FILE = ROOT / PARAMS.get("dirs", ["", "a/", "a/b/"])[2] / "f.py"
+DIRS = PARAMS.get("dirs", ["", "a/", "a/b/"])
+REL = DIRS[2] + "f.py"
 PRECS = ["closest", "aggregate", "override"]
 INFOS = ["none", "c", "l", "cl"]  # copyright / licence present in the table
 OWN = ["none", "c", "l", "cl", "unparseable", "binary"]
@@ -163,7 +164,7 @@ def model(own, sib, lv):
         cs = (f"2020 Holder-L{i}",) if ("c" in s[1] and c) else ()
         ls = (LIC[i],) if ("l" in s[1] and l) else ()
         if cs or ls:
-            items.append((DIRS[i] + "REUSE.toml", "reuse-toml", cs, ls, "a/b/f.py"))
+            items.append((DIRS[i] + "REUSE.toml", "reuse-toml", cs, ls, REL))
 
     for i, s in active:
         if s[0] in ("override", "aggregate"):
@@ -172,15 +173,15 @@ def model(own, sib, lv):
     if override:
         fkind, who, src, st = "none", None, None, None
     elif sib != "absent":
-        fkind, who, src, st = sib, "sib", "a/b/f.py.license", "dot-license"
+        fkind, who, src, st = sib, "sib", REL + ".license", "dot-license"
     elif own in ("unparseable", "binary"):
         fkind, who, src, st = "none", None, None, None
     else:
-        fkind, who, src, st = own, "own", "a/b/f.py", "file-header"
+        fkind, who, src, st = own, "own", REL, "file-header"
     has_c = fkind in ("c", "cl")
     has_l = fkind in ("l", "cl")
     if has_c or has_l:
-        items.append((src, st, (f"2021 {who}",) if has_c else (), (LIC[who],) if has_l else (), "a/b/f.py"))
+        items.append((src, st, (f"2021 {who}",) if has_c else (), (LIC[who],) if has_l else (), REL))
     # closest: per attribute the nearest level that provides it, only for what the file lacks
     closest = [(i, s) for i, s in active if s[0] == "closest"]
     want_c = not has_c
@@ -270,7 +271,7 @@ def explain(o, s, l0, l1, l2):
     own, sib, lv = scenario(o, s, l0, l1, l2)
     res, read = real(own, sib, lv)
     exp, must_read = model(own, sib, lv)
-    return {"own": own, "sibling": sib, "levels": lv, "got": norm(res), "expected": exp, "file_read": bool(read), "file_must_be_read": must_read, "known_key": known_key(own, sib, lv)}
+    return {"own": own, "sibling": sib, "levels": lv, "dirs": DIRS, "got": norm(res), "expected": exp, "file_read": bool(read), "file_must_be_read": must_read, "known_key": known_key(own, sib, lv)}
 
 
 # ------------------------------------------------------------------ two tables in one REUSE.toml: last match wins
@@ -280,7 +281,7 @@ def _two(t1, t2, o, m1, m2):
     s1 = SHAPES[1 + _pick(t1, 12)]
     s2 = SHAPES[1 + _pick(t2, 12)]
     own = OWN[_pick(o, int(PARAMS.get('own_n', 4)))]
-    g1 = "**" if m1 else "nomatch/**"
+    g1 = ("**" if not PARAMS.get("literal_first") else "a/b/f.py") if m1 else "nomatch/**"
     g2 = "a/b/*.py" if m2 else "nomatch.py"
     toml = ReuseTOML(version=1, source=str(ROOT / "REUSE.toml"), annotations=[_item(0, s1[0], s1[1], g1, tag=0), _item(0, s2[0], s2[1], g2, tag="t2")])
     gl = NestedReuseTOML(reuse_tomls=[toml], source=str(ROOT))
